@@ -349,7 +349,7 @@ class Monitor(cmd.Cmd):
             bytes = self._assembler.assemble(statement, start)
             end = start + len(bytes)
             self._mpu.memory[start:end] = bytes
-            self.do_disassemble(self.addrFmt % start)
+            self.do_disassemble('$' + self.addrFmt % start)
         except KeyError as exc:
             self._output(exc.args[0]) # "Label not found: foo"
         except OverflowError:
@@ -472,7 +472,7 @@ class Monitor(cmd.Cmd):
 
     def do_step(self, args):
         self._mpu.step()
-        self.do_disassemble(self.addrFmt % self._mpu.pc)
+        self.do_disassemble('$' + self.addrFmt % self._mpu.pc)
 
     def help_return(self):
         self._output("return")
